@@ -16,7 +16,7 @@ RULE = ("as C11, restricted to num_anneals >= 1 and biased to explicit schedules
         "chain (single-spin Metropolis with the exact energy difference recomputed from the model at every step, same PCG32 "
         "stream, exact rational arithmetic, enclosures of exp) and, at zero temperature, with the value of the initial "
         "state; non-trivial = at least two spins and one coupling; distinct by canonical JSON")
-THEOREMS = ""
+THEOREMS = "C12_quso_exact_dE C12_cache C12_puso_exact_dE C12_quso_refines C12_puso_refines C12_zero_descent C12_zero_inorder C12_accept_downhill C12_accept_uphill C12_rand_int"
 MODELLED = c11.MODELLED + "; the quality of PCG32 as a uniform source is assumed"
 TRUSTED = c11.TRUSTED
 pre_import = c11.pre_import
